@@ -164,7 +164,7 @@ func (m *Manager) Allocate(ctx context.Context, cni *daemon.CNI, req *AllocReque
 	for _, request := range req.ResourceRequests {
 
 		var ch chan *AllocResp
-		for _, ni := range m.networkInterfaces {
+		for _, ni := range preferNamed(m.networkInterfaces, request) {
 			var tr []Trace
 			ch, tr = ni.Allocate(ctx, cni, request)
 			if ch != nil {
@@ -222,6 +222,27 @@ func (m *Manager) Allocate(ctx context.Context, cni *daemon.CNI, req *AllocReque
 	}
 
 	return result, err
+}
+
+// preferNamed puts the interface a request names in front, keeping the order of the others.
+// A repeated ADD carries the interface of the pod's recorded address; it has to reach that
+// interface before any other (an empty slot accepts every request and would create a second
+// interface and hand the pod a second address, whatever the selection policy put first).
+func preferNamed(nis []NetworkInterface, request ResourceRequest) []NetworkInterface {
+	r, ok := request.(*LocalIPRequest)
+	if !ok || r.NetworkInterfaceID == "" {
+		return nis
+	}
+	named := make([]NetworkInterface, 0, len(nis))
+	var others []NetworkInterface
+	for _, ni := range nis {
+		if s, ok := ni.(ReportStatus); ok && s.Status().NetworkInterfaceID == r.NetworkInterfaceID {
+			named = append(named, ni)
+		} else {
+			others = append(others, ni)
+		}
+	}
+	return append(named, others...)
 }
 
 // Release find the resource manager and send the request to it.
